@@ -55,6 +55,10 @@ func c02exec(c *h.Ctx, cs *h.Case) {
 			return onet.TreeNodeID(uuid.New()), true
 		}
 		i, _ := strconv.Atoi(s)
+		if i-10 >= len(nodes) {
+			// the node of server i-10 in any other tree: a node's id derives from its server's key alone
+			return onet.NewTreeNode(0, f.cl.SI(i-10)).ID, true
+		}
 		return nodes[i-10].ID, true
 	}
 	scr := false
@@ -165,6 +169,67 @@ func c02exec(c *h.Ctx, cs *h.Case) {
 			// Tree.List is pre-order: root, (mid,) children — the same order as the ops use
 			to = fix.TokenFor(ct.t, ct.target, round)
 			cs.Impl = append(cs.Impl, "ok")
+		case len(tk) == 4 && tk[1] == "store":
+			if err := c02storeTree(f, tk[3]); err != nil {
+				cs.Impl = append(cs.Impl, "bad-op")
+				continue
+			}
+			cs.Impl = append(cs.Impl, "ok")
+		case len(tk) == 7 && tk[1] == "net":
+			// c02 net <conn|self:k> <type> <claimed sender> <value> <w<k>|w->: through the real routers
+			ty, _ := strconv.Atoi(tk[3])
+			v, _ := strconv.Atoi(tk[5])
+			from := ct.srv
+			if !strings.HasPrefix(tk[2], "self:") {
+				from, _ = strconv.Atoi(tk[2])
+			}
+			peer := strconv.Itoa(from)
+			bad := c02bad(f, nodes, tk[4], peer)
+			sentBy[v] = sent{tk[4], peer, bad, ty}
+			var ft *onet.Token
+			if id, ok := nodeID(tk[4]); ok {
+				ft = fix.TokenFor(ct.t, ct.target, round)
+				ft.TreeNodeID = id
+			}
+			env, err := fix.Envelope(nil, ft, to, fix.Payload(ty, v))
+			if err != nil {
+				panic(err)
+			}
+			pm := env.Msg.(*onet.ProtocolMsg)
+			if tk[6] != "w-" {
+				k, _ := strconv.Atoi(tk[6][1:])
+				pm.ServerIdentity = f.cl.SI(k)
+			}
+			if err := c02sendReal(f, from, ct.srv, pm); err != nil {
+				cs.Impl = append(cs.Impl, "send-failed")
+				cs.Fail("send-failed", err.Error())
+				return
+			}
+			barrier++
+			bi := 0
+			if isRoot {
+				bi = 1
+			}
+			inject(9, strconv.Itoa(10+bi), strconv.Itoa(bi), barrier)
+			if rec == nil {
+				rec = fix.RecOf(to)
+			}
+			if rec == nil {
+				cs.Impl = append(cs.Impl, "no-instance")
+				cs.Fail("no-instance", "no instance was created for the honest barrier message")
+				return
+			}
+			select {
+			case <-rec.SyncCh:
+			case <-time.After(10 * time.Second):
+				cs.Impl = append(cs.Impl, "hang")
+				cs.Fail("hang", "barrier not handled within 10 s after "+op)
+				return
+			}
+			cs.Impl = append(cs.Impl, show(rec.Drain()))
+			if !bad && (ty == 3 || ty == 4) && !delivered[v] {
+				cs.Fail("honest-not-delivered", fmt.Sprintf("honest plain message %d (sender %s over its own connection) was not delivered", v, tk[4]))
+			}
 		case len(tk) == 2 && tk[1] == "treearrives":
 			if !parked {
 				cs.Impl = append(cs.Impl, "ok")
@@ -221,12 +286,7 @@ func c02exec(c *h.Ctx, cs *h.Case) {
 			}
 			ty, _ := strconv.Atoi(tk[2])
 			v, _ := strconv.Atoi(tk[5])
-			bad := tk[3] == "-" || tk[3] == "90" || tk[3] == "99"
-			if !bad && tk[4] != "-" {
-				i, _ := strconv.Atoi(tk[3])
-				p, _ := strconv.Atoi(strings.SplitN(tk[4], "f", 2)[0]) // only the key is authenticated
-				bad = !nodes[i-10].ServerIdentity.Equal(f.cl.SI(p))
-			}
+			bad := c02bad(f, nodes, tk[3], tk[4])
 			sentBy[v] = sent{tk[3], tk[4], bad, ty}
 			inject(ty, tk[3], tk[4], v)
 			if parked {
@@ -276,7 +336,26 @@ func c02exec(c *h.Ctx, cs *h.Case) {
 	cs.Outcome = fmt.Sprintf("root=%v delivered=%d/%d", isRoot, nd, len(sentBy))
 }
 
+// c02bad: does the property forbid delivering a message with this claimed sender over this peer's connection
+func c02bad(f *c04fixture, nodes []*onet.TreeNode, sender, peer string) bool {
+	if sender == "-" || sender == "90" || sender == "99" {
+		return true
+	}
+	i, _ := strconv.Atoi(sender)
+	if i-10 >= len(nodes) {
+		return true // not a node of the instance's tree (a member of another stored tree)
+	}
+	if peer == "-" {
+		return false
+	}
+	p, _ := strconv.Atoi(strings.SplitN(peer, "f", 2)[0]) // only the key is authenticated
+	return !nodes[i-10].ServerIdentity.Equal(f.cl.SI(p))
+}
+
 func classify(sender, peer string) string {
+	if sender == "18" || sender == "19" {
+		return "member-of-other-stored-tree"
+	}
 	switch sender {
 	case "-":
 		return "missing-sender"
@@ -430,6 +509,94 @@ func c02gen(c *h.Ctx, yield func(*h.Case)) {
 						cs.Ops = append(cs.Ops, fmt.Sprintf("c02 msg 3 %d %d %d", 10+first, first, val))
 						c.Count("class=parked")
 						yield(cs)
+					}
+				}
+			}
+		}
+	}
+	// through the real routers: the peer identity is what the receiving router stamps on the envelope
+	// (Router.handleConn) and Overlay.Process copies; `self:` is the receiving server sending to itself
+	for _, root := range []bool{false, true} {
+		for _, k := range []int{1, 2} {
+			n := k + 2
+			srv := 1
+			if root {
+				n = k + 1
+				srv = 0
+			}
+			for ty := 1; ty <= 4; ty++ {
+				for _, s := range senders(root, k) {
+					for j := 0; j <= n; j++ {
+						if r.Intn(c.Pick(3, 1)) != 0 {
+							continue
+						}
+						conn := strconv.Itoa(j)
+						if j == n {
+							conn = "10" // a server outside the tree
+						}
+						if j == srv {
+							conn = fmt.Sprintf("self:%d", srv)
+						}
+						w := "w-"
+						if si, err := strconv.Atoi(s); err == nil && si >= 10 && si < 90 && r.Intn(2) == 0 {
+							w = fmt.Sprintf("w%d", si-10) // the frame names the server hosting the claimed node
+						}
+						cs := &h.Case{Class: fmt.Sprintf("net ty=%d", ty)}
+						cs.Ops = append(cs.Ops, cfg(root, k))
+						val++
+						cs.Ops = append(cs.Ops, fmt.Sprintf("c02 net %s %d %s %d %s", conn, ty, s, val, w))
+						first := 2
+						if root {
+							first = 1
+						}
+						for i := 0; i < k; i++ {
+							val++
+							cs.Ops = append(cs.Ops, fmt.Sprintf("c02 net %d %d %d %d w-", first+i, ty, 10+first+i, val))
+						}
+						c.Count("class=net")
+						c.Count("sender=" + classify(s, conn))
+						yield(cs)
+					}
+				}
+			}
+		}
+	}
+	// the receiving server stores other trees with the same root server (0) whose members are not members of
+	// the instance's tree: server 8 in one, servers 1 and 9 in another. Their nodes name themselves over their own
+	// connections (and over others'), as injected envelopes and through the real routers.
+	for _, root := range []bool{false, true} {
+		for _, k := range []int{1, 2, 3} {
+			for ty := 1; ty <= 4; ty++ {
+				for _, s := range []string{"18", "19", "11"} {
+					for _, p := range []string{"8", "9", "1", "0", "-"} {
+						for _, real := range []bool{false, true} {
+							if real && p == "-" || r.Intn(c.Pick(2, 1)) != 0 {
+								continue
+							}
+							cs := &h.Case{Class: "stored-trees"}
+							cs.Ops = append(cs.Ops, "c02 store 5 10:0,18:8", "c02 store 6 10:0,11:1,19:9", cfg(root, k))
+							val++
+							if real {
+								conn := p
+								if (root && p == "0") || (!root && p == "1") {
+									conn = "self:" + p
+								}
+								cs.Ops = append(cs.Ops, fmt.Sprintf("c02 net %s %d %s %d w-", conn, ty, s, val))
+							} else {
+								cs.Ops = append(cs.Ops, fmt.Sprintf("c02 msg %d %s %s %d", ty, s, p, val))
+							}
+							first := 2
+							if root {
+								first = 1
+							}
+							for i := 0; i < k; i++ {
+								val++
+								cs.Ops = append(cs.Ops, fmt.Sprintf("c02 msg %d %d %d %d", ty, 10+first+i, first+i, val))
+							}
+							c.Count("class=stored-trees")
+							c.Count("sender=" + classify(s, p))
+							yield(cs)
+						}
 					}
 				}
 			}
